@@ -1,8 +1,11 @@
-(** C09 clone / clone_from.  In the value model a clone IS the original state; what remains to be
-    said is that equal (indeed any two observationally equivalent) states answer every further
-    history identically.  Independence of the two copies in the implementation is Rust ownership
-    and is not expressible in a value model (partial; see DESIGN.md). *)
-From FC Require Import Base.Res Region.Region Region.History.
+(** C09 clone / clone_from.  In the value model a clone IS the original state; [clone_from] is
+    modelled field by field as the hand-written Rust impls do it (Region/CloneFrom.v) and proved to
+    return the source whatever the destination held -- for every combinator and for every
+    catalogue entry; equal (indeed any two observationally equivalent) states answer every
+    further history identically.  Independence of the two copies in the implementation is Rust
+    ownership and is not expressible in a value model (partial; see DESIGN.md). *)
+From FC Require Import Base.Res Index.IC Region.Region Region.History Region.CloneFrom Region.Consec.
+From FC Require Import Model.Wire Model.Catalogue Model.CatalogueOk.
 
 Theorem C09_equal_futures : forall (R : Region) (SP : RSpec R), RegionOK R ->
   forall (ops : list (op R)) s t log tr s' log' tr', inv s -> inv t -> sim s t ->
@@ -13,3 +16,19 @@ Proof. exact (@run_sim). Qed.
 Theorem C09_equal_reads : forall (R : Region) (SP : RSpec R), RegionOK R ->
   forall s t log, inv s -> inv t -> sim s t -> log_ok s log -> log_ok t log.
 Proof. exact (@sim_log). Qed.
+
+(** clone_from leaves exactly the source: no field is forgotten (shown for the combinators with
+    bookkeeping beyond their children) ... *)
+Theorem C09_collapse_clone_from : forall (R : Region) veq (C : RClone R), CloneFromOK C ->
+  forall d s, r_clone_from (collapse_clone veq C) d s = s.
+Proof. exact (@collapse_clone_ok). Qed.
+Theorem C09_consec_clone_from : forall (R : Region) (PI : PairIdx R) (O : IC nat) chk (C : RClone R), CloneFromOK C ->
+  forall d s, r_clone_from (@consec_clone R PI O chk C) d s = s.
+Proof. exact (@consec_clone_ok). Qed.
+Theorem C09_columns_clone_from : forall (R : Region) (O : IC nat) chk (C : RClone R), CloneFromOK C ->
+  forall d s, r_clone_from (columns_clone O chk C) d s = s.
+Proof. exact (@columns_clone_ok). Qed.
+(** ... and for EVERY Clone-able region of the catalogue (the [entry] function the correspondence runs) *)
+Theorem C09_catalogue_clone_from : forall chk szs n e, entry chk szs n = Some e ->
+  forall C, m_clone e = Some C -> forall d s, r_clone_from C d s = s.
+Proof. exact catalogue_clone_from. Qed.
